@@ -95,6 +95,7 @@ pub open spec fn nz_kept(m: AsmMnemonic) -> bool {
 
 
 def r15(c):
+    c.sub(r"\bflags == FlagsState::(A|X|Y|Unknown)\b", r"(match &flags { FlagsState::\1 => true, _ => false })", "R3 derived == on an enum with String-carrying variants -> match on the unit variant", expect=(0, 8))
     common.r27_is_some_and(c)
     common.r24_inline_closures(c)
     c.sub(r"(\w+(?:\.\w+)*)\.starts_with\(\"#\"\)", r"starts_with_hash(&\1)", "R15 starts_with(\"#\")")
@@ -207,7 +208,10 @@ pub fn knowledge_transfer(second: Option<&AsmLine>, iter: &mut Peek, accumulator
             && (r.1 is None || sw_hash(r.1->Some_0@) || (ins(second).mnemonic == AsmMnemonic::STX && known(r.1, ins(second).dasm_operand@)))
             && (r.2 is None || sw_hash(r.2->Some_0@) || (ins(second).mnemonic == AsmMnemonic::STY && known(r.2, ins(second).dasm_operand@)))), //@ C02,C17:xfer-store-forgets-aliases
         ((!remove_second && !remove_both) && r.3 == FlagsState::A && r.0 is Some ==> nz_is_a(ins(second).mnemonic, ins(second).dasm_operand@) || (flags == FlagsState::A && nz_kept(ins(second).mnemonic))), //@ C02:xfer-flags-a
-%(jmp_clause)s        ((!remove_second && !remove_both) && r.4 ==> !ins(second).protected), //@ C18,C02:xfer-reload-unprotected
+%(jmp_clause)s        // a load also sets N and Z: dropping a reload of X / Y is invisible only if the flags already describe that register
+        ((!remove_second && !remove_both) && r.4 && ins(second).mnemonic == AsmMnemonic::LDX ==> flags == FlagsState::X), //@ C02:xfer-reload-x-keeps-flags
+        ((!remove_second && !remove_both) && r.4 && ins(second).mnemonic == AsmMnemonic::LDY ==> flags == FlagsState::Y), //@ C02:xfer-reload-y-keeps-flags
+        ((!remove_second && !remove_both) && r.4 ==> !ins(second).protected), //@ C18,C02:xfer-reload-unprotected
         ((!remove_second && !remove_both) && r.4 ==> ((ins(second).mnemonic == AsmMnemonic::LDA && known(accumulator, ins(second).dasm_operand@)) || (ins(second).mnemonic == AsmMnemonic::LDX && known(x_register, ins(second).dasm_operand@)) || (ins(second).mnemonic == AsmMnemonic::LDY && known(y_register, ins(second).dasm_operand@)))), //@ C02:xfer-reload-redundant
 {
     let mut accumulator = accumulator;
